@@ -228,51 +228,48 @@ def facts_changed():
     return out
 
 
-def _ref_exe(component):
-    srcs = [_ref_path(n) for n in GEN_FILES] + glob.glob(os.path.join(LEAN, "JsonC", "Model", "*.lean")) + \
-        glob.glob(os.path.join(LEAN, "JsonC", "Spec", "*.lean")) + glob.glob(os.path.join(LEAN, "JsonC", "Libc", "*.lean")) + \
-        glob.glob(os.path.join(LEAN, "JsonC", "Base", "*.lean")) + glob.glob(os.path.join(LEAN, "Driver", "*.lean"))
-    return os.path.join(BUILD, "refdrivers", "driver-%s-%s" % (component, file_hash(srcs)))
+REFLAKE = os.path.join(BUILD, "reflake")
 
 
-def ref_driver(component):
-    """Path of the driver built from the reference facts (built on demand, cached by content)."""
-    exe = _ref_exe(component)
-    if os.path.exists(exe):
-        return exe
-    os.makedirs(os.path.dirname(exe), exist_ok=True)
-    with flock("lake"):
-        saved = {}
-        for n in GEN_FILES:
-            try:
-                saved[n] = open(_gen_path(n)).read()
-            except OSError:
-                saved[n] = None
-        try:
-            for n in GEN_FILES:
-                write_if_changed(_gen_path(n), open(_ref_path(n)).read())
-            r = sh(["lake", "build", "driver-" + component], cwd=LEAN, timeout=3000)
+def ensure_reflake():
+    """build/reflake = a mirror of lean/ whose Generated/*.lean are the reference facts: the workspace in which the
+    committed theorems and drivers (the "proven model") are rebuilt when /repo's regenerated facts are not covered by
+    the theorems.  Created by copying lean/ with its build output (on an unchanged tree that output is already up to
+    date for the reference facts), then kept in step with the Lean sources."""
+    with flock("reflake"):
+        if not os.path.isdir(os.path.join(REFLAKE, "JsonC")):
+            shutil.rmtree(REFLAKE, ignore_errors=True)
+            r = sh(["cp", "-a", LEAN, REFLAKE])
             if r.returncode != 0:
-                raise BuildError("driver does not build from the reference facts:\n" + r.stdout[-2000:])
-            shutil.copy2(driver_path(component), exe + ".tmp")
-            os.replace(exe + ".tmp", exe)
-        finally:
-            for n in GEN_FILES:
-                if saved[n] is not None:
-                    write_if_changed(_gen_path(n), saved[n])
-    return exe
+                raise BuildError("cannot create build/reflake: " + r.stdout[-500:])
+        else:
+            sh(["rsync", "-a", "--exclude", ".lake", "--exclude", "Generated", "--exclude", "ref", LEAN + "/", REFLAKE + "/"])
+        for n in GEN_FILES:
+            write_if_changed(os.path.join(REFLAKE, "JsonC", "Generated", n), open(_ref_path(n)).read())
+    return REFLAKE
 
 
-def cache_ref_driver(component):
-    """On a tree whose facts equal the reference facts the freshly built driver IS the reference driver: keep a copy,
-    so that a later run on an edited tree need not rebuild it."""
-    if facts_changed() or not os.path.exists(driver_path(component)):
-        return
-    exe = _ref_exe(component)
-    if not os.path.exists(exe):
-        os.makedirs(os.path.dirname(exe), exist_ok=True)
-        shutil.copy2(driver_path(component), exe + ".tmp")
-        os.replace(exe + ".tmp", exe)
+def lake_ref(targets, timeout=3000):
+    ensure_reflake()
+    with flock("reflake"):
+        r = sh(["lake", "build"] + list(targets), cwd=REFLAKE, timeout=timeout)
+    return r.returncode == 0, r.stdout
+
+
+def ref_driver_path(component):
+    return os.path.join(REFLAKE, ".lake", "build", "bin", "driver-" + component)
+
+
+@contextmanager
+def lean_root(path):
+    """run the audits (which read LEAN) against another workspace"""
+    global LEAN
+    old = LEAN
+    LEAN = path
+    try:
+        yield
+    finally:
+        LEAN = old
 
 
 FORBIDDEN = re.compile(r"\b(sorry|admit|native_decide|bv_decide|implemented_by|unsafe)\b|^\s*axiom\s|maxHeartbeats\s+0\b")
@@ -359,7 +356,7 @@ def audit_axioms(prop):
             f.write("#print axioms %s\n" % t)
     # under the build lock: a concurrent check that is rebuilding a shared module (e.g. Generated.Structure after
     # /repo changed) must not pull the .olean files away while they are being read
-    with flock("lake"):
+    with flock("reflake" if LEAN == REFLAKE else "lake"):
         r = sh(["lake", "env", "lean", tmp], cwd=LEAN)
     os.unlink(tmp)
     res, problems = {}, []
